@@ -163,6 +163,11 @@ func (s *Linear) Nice(o TickOptions) {
 	}
 
 	firstN, lastN, spacing := s.spacingAtLevel(level, true)
+	if math.IsInf(spacing, 0) {
+		// No level really satisfies o (the tick count only
+		// dropped because the spacing overflowed).
+		return
+	}
 	s.Min = firstN * spacing
 	s.Max = lastN * spacing
 }
